@@ -111,7 +111,9 @@ func formatFunctionName(name string) string {
 // escapeKeyword makes sure that the name, as it will be written, is not a reserved
 // word: `From` is written `from`.
 func escapeKeyword(name string) string {
-	if isReservedPythonKeyword(name) {
+	// `self` is not a keyword, but it is the first parameter of every generated
+	// method: a field or an argument can't use that name.
+	if isReservedPythonKeyword(name) || name == "self" {
 		return name + "_val"
 	}
 
